@@ -4,7 +4,8 @@ from lib import *
 
 THEOREMS = ["Lex.decimal_roundtrip", "Lex.hex_roundtrip", "Lex.bin_roundtrip", "Lex.decimal_too_big",
             "Lex.valueOf_toDigits", "Lit.lint_iff_out_of_range", "Lit.lint_iff_out_of_range_negated_bit",
-            "Lit.materialise_exact", "Lit.minus_fold", "Lit.minus_fold_i128_min"]
+            "Lit.materialise_exact", "Lit.minus_fold", "Lit.minus_fold_i128_min", "Lit.lint_iff_out_of_range_on",
+            "Lit.lint_iff_out_of_range_bit_on", "Lit.materialise_exact_on", "Lit.outcomeOn_host"]
 
 TYPES = ["i8", "i16", "i32", "i64", "i128", "u8", "u16", "u32", "u64", "u128", "usize"]
 WIDTH = {"i8": 8, "i16": 16, "i32": 32, "i64": 64, "i128": 128, "u8": 8, "u16": 16, "u32": 32, "u64": 64, "u128": 128,
@@ -328,8 +329,54 @@ def main():
             rep.violation("lint-position:%s:%s:%d" % (pos, t, v), {
                 "why": "the literal %d of type %s in position `%s`: L1142 expected=%s, compiler says %s" % (v, t, pos, want, ha[:160]),
                 "source": src, "harness_request": "alpha\tcheck\tmain.pn\t" + esc(src)})
+    # the wasm32 target (`penne --wasm`): `usize` is 32 bits wide there.  Nothing can be run; the lint and the constant the
+    # module stores are compared with the model for that target (Lit.outcomeOn true).
+    wcases = []
+    for v in sorted({0, 1, (1 << 31), (1 << 32) - 1, 1 << 32, (1 << 32) + 1, (1 << 63), (1 << 64) - 1, 1 << 64, (1 << 127),
+                     (1 << 128) - 1} | {rng.below(1 << 32) for _ in range(4)} | {rng.below(1 << 64) for _ in range(4)}
+                    | {rng.below(1 << 128) for _ in range(3 if thorough else 1)}):
+        for b in (10, 16, 2):
+            for sfx in ("", "usize"):
+                wcases.append(("usize", spell(rng, v, b) + sfx))
+    for t, v in (("u32", (1 << 32) - 1), ("u32", 1 << 32), ("u64", 1 << 32), ("u64", 1 << 64), ("i32", (1 << 31) - 1), ("i32", 1 << 31)):
+        wcases.append((t, str(v)))
+    wm = run_model(["C09\t(lit32 %s 0 %s)" % (t, sexp_str(sp)) for (t, sp) in wcases])
+    wsrcs = ["fn main()\n{\n\tvar x: %s = %s;\n}\n" % (t, sp) for (t, sp) in wcases]
+    wh = run_harness(["alpha\twasm+mods\tmain.pn\t" + esc(src) for src in wsrcs])
+    for (t, sp), ma, ha, src in zip(wcases, wm, wh, wsrcs):
+        hh, hd = kv(ha)
+        why = None
+        dist["wasm32:" + ma.split(" ")[0]] += 1
+        if ma.startswith("value"):
+            _, d = kv(ma)
+            want_lint = d["lint"] == "1"
+            bits = {"usize": 32, "u32": 32, "i32": 32, "u64": 64}[t]
+            stored = None
+            if hh == "ok":
+                ir = "\n".join(bytes.fromhex(x[2:]).decode("utf-8", "replace") for x in hd.get("mods", "").split(";") if x.startswith("h:"))
+                ms = re.search(r"store i%d (-?\d+), (?:i%d\*|ptr) %%x" % (bits, bits), ir)
+                stored = int(ms.group(1)) % (1 << bits) if ms else None
+            if hh != "ok":
+                why = "expected acceptance, got " + ha[:100]
+            elif (1142 in codes_of(hd, "lints")) != want_lint:
+                why = "for wasm32: L1142 %s, but the literal is %s the range of %s there" % (
+                    1142 in codes_of(hd, "lints"), "outside" if want_lint else "inside", t)
+            elif stored != int(ma.split()[1]) % (1 << bits):
+                why = "for wasm32: the module stores %s, the model says %s" % (stored, ma.split()[1])
+        elif ma.startswith("error"):
+            if not (hh == "err" and int(ma.split()[1]) in codes_of(hd)):
+                why = "expected E%s" % ma.split()[1]
+        else:
+            continue
+        if why:
+            rep.violation("wasm32-lit:%s:%s" % (t, sp.replace("_", "").lower()), {
+                "why": why, "source": src, "harness_request": "alpha\twasm+mods\tmain.pn\t" + esc(src),
+                "model_request": "C09\t(lit32 %s 0 %s)" % (t, sexp_str(sp)), "model": ma, "implementation": ha[:300]})
+        else:
+            agreeing += 1
     report_broken_proof(rep)
     rep.coverage.update({
+        "wasm32_literals": len(wcases),
         "evaluations": len(cases),
         "distinct_nontrivial": len(nontrivial),
         "programs": len(progs),
